@@ -157,6 +157,10 @@ func (h *Hub) Run() {
 				log.Printf("[WS] Connection rejected (limit reached): %s", conn.ID)
 				h.metrics.IncrementRejectedConnections()
 				conn.conn.Close()
+				// The pumps are started for a refused connection as well, and its
+				// unregister is ignored (it was never registered): without this the
+				// write pump waits on the send channel and Shutdown waits for it.
+				conn.closeSend()
 				continue
 			}
 
